@@ -15,7 +15,7 @@ func init() {
 		"(R06.1) SendPSync formats offset+1 for a known offset and the raw value otherwise, returns sent-1 on CONTINUE and the parsed offset on FULLRESYNC; (R06.2) a nil snapshot waiter (partial resync) is returned only under a CONTINUE reply, any other reply is an error, and sendPsync reports 'not full' only for a nil waiter; " +
 		"(R06.3) PSYNC is asked from the cache's position only when the target's position is a valid cache offset (or a valid cached snapshot exists and the target has no position), from the target's position otherwise — and then the cache is cleared (DelRunId before SetRunId) on that path — or from the initial point; a full resync always clears the cache first; " +
 		"(R06.4) on full-sync paths the reader start is reply offset − announced snapshot size and the writer offset the reply offset, the snapshot size returned is the one the source announced; on partial paths the reader start is the target's stored position (or cached snapshot start when replaying the cached snapshot, only when the source granted the continuation) and the writer offset the cache's edge or the target's position; " +
-		"(R06.6) cache and bookkeeping are re-keyed with the same id, which on CONTINUE is the source's current id. Not decided: agreement with the source's own admission rules (needs a model of Redis)."
+		"(R06.6) cache and bookkeeping are re-keyed with the same id, which on CONTINUE is the source's current id. (R06.7) the cache is adopted under one of the source's ids only when it holds data written under that id (the disk store switches to an id only when that id's directory exists; the memory channel answers only for its own id). Not decided: agreement with the source's own admission rules (needs a model of Redis)."
 }
 
 const syncMetaFn = "(*syncer.RedisInput).syncMeta"
@@ -32,6 +32,9 @@ func c06(w *core.World, r *core.Report) {
 
 	r.Rule("R06.5", "the values syncMeta returns reach the writer and the reader unchanged", 2)
 	ruleMetaPlumbing(w, r)
+
+	r.Rule("R06.7", "a cache is adopted under one of the source's ids only when it holds data written under that id", 2)
+	ruleCacheAdoption(w, r)
 }
 
 func rulePsyncWire(w *core.World, r *core.Report) {
@@ -478,4 +481,91 @@ func pathNil(p *core.Path, v ssa.Value) bool {
 		return true
 	}
 	return p.Holds(token.EQL, func(x ssa.Value) bool { return x == rv }, core.IsNilConst)
+}
+
+// ---------------------------------------------------------------- R06.7 a cache is adopted for an id only when it holds data of that id
+
+// ruleCacheAdoption: the cache's start point is what the source is asked to
+// continue from. It may be reported under one of the source's ids only when
+// the cache really holds data written under that id: the disk store switches
+// to an id only when that id's directory exists (switching to a missing one
+// renames the current directory, i.e. relabels another history's bytes), the
+// memory channel answers only when the id equals the one its data was
+// written under.
+func ruleCacheAdoption(w *core.World, r *core.Report) {
+	if f := fn(w, r, "(*pkg/store.Storer).VerifyRunId"); f != nil {
+		ok := false
+		var pos token.Pos = f.Pos()
+		for _, set := range core.SitesNamed(f, false, "(*pkg/store.Storer).SetRunId") {
+			pos = set.Pos()
+			for _, st := range core.SitesNamed(f, false, "os.Stat") {
+				// the path probed is <baseDir>/<id> and the id adopted is the same id
+				sameId := false
+				if j, isCall := core.Unwrap(st.Args()[0]).(*ssa.Call); isCall && core.ResolveCall(j).Name == "path/filepath.Join" {
+					if elems, okV := core.VariadicElems(j.Call.Args[0]); okV && len(elems) == 2 &&
+						core.IsFieldLoad(core.Unwrap(elems[0]), "Storer", "baseDir") && core.Unwrap(elems[1]) == core.Unwrap(set.Args()[0]) {
+						sameId = true
+					}
+				}
+				if sameId && core.Dominates(st.Instr, set.Instr) && core.OnSuccessOf(set.Instr.Block(), st.Value()) {
+					ok = true
+				}
+			}
+		}
+		r.Check(ok, "Storer.VerifyRunId/adopt-existing-only", pos, "the store may switch to one of the source's ids only on the success edge of probing that id's own directory; switching to an id without a directory renames the current directory to it, and the source is then asked to continue another history's bytes under the new id")
+	}
+	if f := fn(w, r, "(*syncer.MemoryChannel).StartPoint"); f != nil {
+		bad := ""
+		n := 0
+		for _, in := range core.Instrs(f) {
+			ret, isRet := in.(*ssa.Return)
+			if !isRet {
+				continue
+			}
+			for _, v := range core.RetVals(ret, 0) {
+				// a start point whose RunId is the channel's own id
+				own := false
+				core.Walk(v, func(x ssa.Value) bool {
+					if core.IsFieldLoad(x, "MemoryChannel", "runId") {
+						own = true
+					}
+					return true
+				})
+				if !own {
+					continue
+				}
+				n++
+				guarded := false
+				for _, fct := range core.FactsAt(ret.Block()) {
+					c, okC := core.AsCmp(fct.Cond, fct.Val)
+					if !okC || c.Op != token.EQL {
+						continue
+					}
+					if core.IsFieldLoad(core.Unwrap(c.X), "MemoryChannel", "runId") || core.IsFieldLoad(core.Unwrap(c.Y), "MemoryChannel", "runId") {
+						guarded = true // id == runID
+					}
+					if isLenZero(c) {
+						guarded = true // len(ids) == 0: the caller asks for the channel's own position
+					}
+				}
+				if !guarded {
+					bad = "the memory channel reports its own id and position without having matched it against the ids asked for"
+				}
+			}
+		}
+		r.Check(bad == "" && n >= 1, "MemoryChannel.StartPoint/own-id-only-when-asked", f.Pos(), "%s", bad)
+	}
+}
+
+func isLenZero(c core.Cmp) bool {
+	isLen := func(v ssa.Value) bool {
+		call, ok := core.Unwrap(v).(*ssa.Call)
+		if !ok {
+			return false
+		}
+		b, ok := call.Call.Value.(*ssa.Builtin)
+		return ok && b.Name() == "len"
+	}
+	z := func(v ssa.Value) bool { k, ok := core.ConstInt(v); return ok && k == 0 }
+	return (isLen(c.X) && z(c.Y)) || (isLen(c.Y) && z(c.X))
 }
